@@ -246,6 +246,18 @@ class World:
                 if twins:
                     return ["set", r.choice(twins), ci, k.hex()]
             return None
+        if tag == "twin":
+            # replace a child by a distinct node that is structurally equal to it (== for Merkle nodes),
+            # through bulk update or plain assignment
+            edges = [(i, k, self.idx(c)) for i in nonleaf for k, c in dict.items(self.nodes[i])]
+            r.shuffle(edges)
+            for (p0, k, ci) in edges[:12]:
+                c = self.nodes[ci]
+                twins = [j for j in range(n) if j != ci and type(self.nodes[j]) is type(c) and self.nodes[j] == c and self.level[p0] > self.level[j]]
+                if twins:
+                    j = r.choice(twins)
+                    return ["upd", p0, [[k.hex(), j]]] if r.random() < 0.7 else ["set", p0, j, k.hex()]
+            return None
         if tag == "set":
             path = rpath()
             ch = r.randrange(n)
@@ -293,8 +305,8 @@ class World:
         return None
 
 
-MIX_C10 = [("set", 0.20), ("mirror", 0.10), ("del", 0.14), ("upd", 0.07), ("hash", 0.22), ("force", 0.06), ("ent", 0.04), ("mod", 0.05), ("coll", 0.04), ("reset", 0.02), ("has", 0.06)]
-MIX_C14 = [("set", 0.18), ("mirror", 0.08), ("del", 0.12), ("upd", 0.06), ("hash", 0.07), ("force", 0.06), ("ent", 0.02), ("mod", 0.02), ("coll", 0.26), ("reset", 0.09), ("has", 0.04)]
+MIX_C10 = [("set", 0.17), ("mirror", 0.09), ("twin", 0.06), ("del", 0.12), ("upd", 0.07), ("hash", 0.22), ("force", 0.06), ("ent", 0.04), ("mod", 0.05), ("coll", 0.04), ("reset", 0.02), ("has", 0.06)]
+MIX_C14 = [("set", 0.15), ("mirror", 0.07), ("twin", 0.05), ("del", 0.11), ("upd", 0.06), ("hash", 0.07), ("force", 0.06), ("ent", 0.02), ("mod", 0.02), ("coll", 0.26), ("reset", 0.09), ("has", 0.04)]
 
 
 def canon_out(world, out):
